@@ -142,6 +142,7 @@ class _ParseTreeProcessor(parsimonious.NodeVisitor):
         self._comment = ""
         self._comment_is_header = True
         self._pending_attribute_line_number = None  # type: typing.Optional[int]
+        self._line_feeds_in_literals = 0  # String literals may span several lines
         self._strict = bool(strict)
         super().__init__()
 
@@ -181,7 +182,8 @@ class _ParseTreeProcessor(parsimonious.NodeVisitor):
             self._flush_comment()
 
     def visit_end_of_line(self, _n: _Node, _c: _Children) -> None:
-        self._current_line_number += 1
+        self._current_line_number += 1 + self._line_feeds_in_literals
+        self._line_feeds_in_literals = 0
 
     # ================================================== Statements ==================================================
 
@@ -444,9 +446,11 @@ class _ParseTreeProcessor(parsimonious.NodeVisitor):
         return _expression.Boolean(False)
 
     def visit_literal_string_single_quoted(self, node: _Node, _c: _Children) -> _expression.String:
+        self._line_feeds_in_literals += node.text.count("\n")
         return _parse_string_literal(node.text)
 
     def visit_literal_string_double_quoted(self, node: _Node, _c: _Children) -> _expression.String:
+        self._line_feeds_in_literals += node.text.count("\n")
         return _parse_string_literal(node.text)
 
 
